@@ -117,6 +117,7 @@ func (m *machine) reportExists(week string) bool {
 // (keyed by run directory + week; reset by resetWeekMemory at scenario start).
 var weekAgg = map[string]*refreport.Week{}
 var weekEarliest = map[string]time.Time{}
+var weekLatestEnd = map[string]time.Time{}
 var weekCreatedAt = map[string]time.Time{}
 var weekCreatedMode = map[string]string{}
 var weekCreatedAsof = map[string]time.Time{}
@@ -124,6 +125,7 @@ var weekCreatedAsof = map[string]time.Time{}
 func resetWeekMemory() {
 	weekAgg = map[string]*refreport.Week{}
 	weekEarliest = map[string]time.Time{}
+	weekLatestEnd = map[string]time.Time{}
 	weekCreatedAt = map[string]time.Time{}
 	weekCreatedMode = map[string]string{}
 	weekCreatedAsof = map[string]time.Time{}
@@ -150,7 +152,7 @@ func (m *machine) scanCalls() {
 			m.fail("off-mode-write", "mode is off but the uploader performed %s on %s", fc.Op, fc.Path)
 			return
 		}
-		creates := fc.Err == nil && (fc.Op == "create-excl" || fc.Op == "link" || fc.Op == "open-create" || fc.Op == "writefile-open" || fc.Op == "rename")
+		creates := fc.Err == nil && (fc.Op == "create-excl" || fc.Op == "link" || fc.Op == "open-create" || fc.Op == "writefile-open" || fc.Op == "rename" || fc.Op == "create" || fc.Op == "open-trunc")
 		if creates && (kind == "ready" || kind == "local") && m.reportedAtStart[week] && !strings.Contains(filepath.Base(fc.Path), ".tmp") {
 			m.fail("second-report", "week %s had a report when the round started, yet uploader task %s created %s", week, fc.Task.Name, fc.Path)
 			return
@@ -162,18 +164,23 @@ func (m *machine) scanCalls() {
 				m.reportMaker[week] = fc.Task
 				m.allMakers[week] = append(m.allMakers[week], fc.Task)
 				var files []*refreport.CountFile
-				var earliest time.Time
+				var earliest, latestEnd time.Time // (latestEnd: the instant the week ended, by its files' own records)
 				for _, mf := range m.roundFiles {
 					if mf.parseable && mf.week == week && mf.end.Before(m.roundStart) {
 						files = append(files, &refreport.CountFile{Path: mf.path, Meta: mf.dec.Meta, Counts: mf.dec.Counts})
-						if earliest.IsZero() || mf.begin.Before(earliest) {
+						// ("all of it was collected strictly after that date": a file without a count collected nothing)
+						if !mf.empty && (earliest.IsZero() || mf.begin.Before(earliest)) {
 							earliest = mf.begin
+						}
+						if mf.end.After(latestEnd) {
+							latestEnd = mf.end
 						}
 					}
 				}
 				key := fmt.Sprintf("%s#%d", week, fc.Task.ID)
 				weekAgg[key] = refreport.Aggregate(files)
 				weekEarliest[key] = earliest
+				weekLatestEnd[key] = latestEnd
 				weekCreatedAt[key] = m.roundStart
 				weekCreatedMode[key] = m.roundMode
 				weekCreatedAsof[key] = m.roundAsof
@@ -198,7 +205,7 @@ func (m *machine) scanCalls() {
 					switch {
 					case m.roundMode != "on":
 						m.fail("uploadable-without-consent", "week %s was made uploadable (%s created) while the mode file says %q", week, dst, m.roundMode)
-					case m.roundStart.Sub(wd) > 21*24*time.Hour:
+					case m.roundStart.Sub(wd) > 21*24*time.Hour && (latestEnd.IsZero() || m.roundStart.Sub(latestEnd) > 21*24*time.Hour):
 						m.fail("too-old-uploaded", "week %s was made uploadable by a run at %s, more than 21 days after it ended", week, m.roundStart.Format(time.RFC3339))
 					case cfg != nil && cfg.Ref.SampleRate > 0 && made.X > cfg.Ref.SampleRate:
 						m.fail("sample-rate", "week %s was made uploadable with X=%v above the sample rate %v", week, made.X, cfg.Ref.SampleRate)
@@ -409,7 +416,8 @@ func (m *machine) checkBody(r *simrt.Request, week string) {
 		return
 	}
 	wd := time.Unix(int64(refcal.DaysFromCivil(atoi(week[0:4]), atoi(week[5:7]), atoi(week[8:10])))*86400, 0).UTC()
-	if weekCreatedAt[key].Sub(wd) > 21*24*time.Hour {
+	if weekCreatedAt[key].Sub(wd) > 21*24*time.Hour && (weekLatestEnd[key].IsZero() || weekCreatedAt[key].Sub(weekLatestEnd[key]) > 21*24*time.Hour) {
+		// (older than 21 days whether the week's end is taken as the midnight its name says or as the end its files record)
 		m.fail("too-old-uploaded", "week %s ended more than 21 days before the run at %s that made it uploadable", week, weekCreatedAt[key].Format(time.RFC3339))
 		return
 	}
@@ -417,7 +425,7 @@ func (m *machine) checkBody(r *simrt.Request, week string) {
 		m.fail("sample-rate", "week %s was made uploadable with X=%v above the sample rate %v", week, x, cfg.Ref.SampleRate)
 		return
 	}
-	if asof := weekCreatedAsof[key]; !asof.IsZero() && !asof.Before(weekEarliest[key]) {
+	if asof := weekCreatedAsof[key]; !asof.IsZero() && !weekEarliest[key].IsZero() && !asof.Before(weekEarliest[key]) {
 		m.fail("data-before-optin", "week %s contains data from %s, not strictly after the opt-in date %s", week, weekEarliest[key].Format("2006-01-02"), asof.Format("2006-01-02"))
 		return
 	}
@@ -657,7 +665,10 @@ func (m *machine) userChangesMode(viaCommands bool) {
 			return
 		}
 		wantDate := time.Unix(int64(refcal.DayOfUnix(asof.Unix()))*86400, 0).UTC()
-		if err != nil || gotMode != want || !gotTime.Equal(wantDate) {
+		// ("the same date": the UTC date of the instant, which the library documents, or
+		// the calendar date the caller's time value carries)
+		own := time.Date(asof.Year(), asof.Month(), asof.Day(), 0, 0, 0, 0, time.UTC)
+		if err != nil || gotMode != want || !(gotTime.Equal(wantDate) || gotTime.Equal(own)) {
 			m.fail("mode-roundtrip", "SetModeAsOf(%q, %s) then Mode() = (%q, %s), err=%v", want, asof.Format(time.RFC3339), gotMode, gotTime.Format(time.RFC3339), err)
 		}
 		return
@@ -677,8 +688,15 @@ func (m *machine) userChangesMode(viaCommands bool) {
 		}
 		return
 	}
+	// The command records the mode with the current date: today's date in UTC (what
+	// the library documents) or on the machine's own calendar; white space around
+	// the line is not part of it.
 	wantContent := want + " " + refcal.Date(refcal.DayOfUnix(now.Unix()))
-	if string(newRaw) != wantContent {
+	dates := map[string]bool{refcal.Date(refcal.DayOfUnix(now.Unix())): true}
+	if z := m.s.Zone; z != nil {
+		dates[now.In(z).Format("2006-01-02")] = true
+	}
+	if newMode != want || newAsof.IsZero() || !dates[newAsof.Format("2006-01-02")] {
 		m.fail("mode-command-content", "gotelemetry %s on %s wrote %q, want %q", want, now.Format(time.RFC3339), newRaw, wantContent)
 		return
 	}
@@ -701,13 +719,14 @@ func (m *machine) userChangesMode(viaCommands bool) {
 			text, _ := os.ReadFile(out)
 			os.Remove(out)
 			lines := strings.Split(string(text), "\n")
-			wantLine := "mode: " + want + " " + newAsof.Format("2006-01-02") + " 00:00:00 +0000 UTC"
-			if len(lines) == 0 || lines[0] != wantLine {
-				m.fail("env-command", "after gotelemetry %s on %s, gotelemetry env prints %q, want %q", want, now.Format(time.RFC3339), lines[0], wantLine)
+			// (how env lays its output out is its own business: the mode and the
+			// date are there, and so are the three paths)
+			if len(lines) == 0 || !strings.Contains(lines[0], want) || !strings.Contains(lines[0], newAsof.Format("2006-01-02")) {
+				m.fail("env-command", "after gotelemetry %s on %s, the first line gotelemetry env prints is %q: it does not name the mode %q and the date %s", want, now.Format(time.RFC3339), lines[0], want, newAsof.Format("2006-01-02"))
 			}
-			for _, kv := range [][2]string{{"modefile:", filepath.Join(m.tele, "mode")}, {"localdir:", m.loc}, {"uploaddir:", m.upl}} {
-				if !strings.Contains(string(text), kv[0]+" "+kv[1]+"\n") {
-					m.fail("env-command", "gotelemetry env does not print %q for %s: %q", kv[1], kv[0], text)
+			for _, kv := range [][2]string{{"mode file", filepath.Join(m.tele, "mode")}, {"local directory", m.loc}, {"upload directory", m.upl}} {
+				if !strings.Contains(string(text), kv[1]) {
+					m.fail("env-command", "gotelemetry env does not print the %s %q: %q", kv[0], kv[1], text)
 				}
 			}
 			m.s.Probe("env-command")
@@ -804,8 +823,20 @@ func (m *machine) userCleans() {
 		if dir == m.upl && strings.HasSuffix(base, ".json") {
 			isData = true
 		}
+		// A file that has a data suffix but not a name the writers produce
+		// (foreign.json, .v1.count, a copy of a report under another name) is
+		// "a counter file or report" by one reading and "a file of the user's own"
+		// by another: either outcome is accepted for it.
+		eitherWay := false
+		if isData {
+			name := strings.TrimSuffix(strings.TrimPrefix(base, "local."), ".json")
+			isReport := strings.HasSuffix(base, ".json") && validWeek(name)
+			isCount := strings.HasSuffix(base, ".v1.count") && strings.Contains(base, "@") && len(base) > len("x@-2006-01-02.v1.count")
+			eitherWay = !isReport && !isCount
+		}
 		h2, still := after[p]
 		switch {
+		case eitherWay && (!still || h2 == h):
 		case isData && still:
 			m.fail("clean-left-data", "gotelemetry clean left %s", m.s.Rel(p))
 		case !isData && !still:
@@ -966,23 +997,55 @@ func (m *machine) checkRound(before, after map[string][32]byte, callsBefore, req
 				}
 				continue
 			}
-			if why, same := sameMap(wp.Counters, nz(gp.Counters)); !same {
+			if why, same := sameValues(wp.Counters, nz(gp.Counters)); !same {
 				m.fail("local-report-counters", "local report for week %s, %s: counter %s", w, wp.Build.Program, why)
 				return
 			}
-			if why, same := sameMap(wp.Stacks, nz(gp.Stacks)); !same {
+			if why, same := sameValues(wp.Stacks, nz(gp.Stacks)); !same {
 				m.fail("local-report-stacks", "local report for week %s, %s: stack %s", w, wp.Build.Program, strings.ReplaceAll(why, "\n", "\\n"))
 				return
 			}
 		}
 		for _, wp := range want.Programs {
-			if !gotBuilds[wp.Build] {
+			if !gotBuilds[wp.Build] && hasData(wp.Counters, wp.Stacks) {
+				// (a build none of whose files holds a count may be left out: the
+				// statement speaks of values that equal the sums)
 				m.fail("local-report-programs", "local report for week %s lacks program build %v", w, wp.Build)
 				return
 			}
 		}
 		s.Probe("week-reported")
 	}
+}
+
+// sameValues compares a local report's values with the sums: "values equal the
+// sums", so a name whose sum is zero may be listed with 0 or left out.
+func sameValues(want, got map[string]int64) (string, bool) {
+	for k, v := range want {
+		if w := got[k]; w != v {
+			if _, ok := got[k]; !ok {
+				return fmt.Sprintf("%q is missing (the files sum to %d)", k, v), false
+			}
+			return fmt.Sprintf("%q is %d, want %d", k, w, v), false
+		}
+	}
+	for k, w := range got {
+		if _, ok := want[k]; !ok && w != 0 {
+			return fmt.Sprintf("%q must not be there", k), false
+		}
+	}
+	return "", true
+}
+
+func hasData(ms ...map[string]int64) bool {
+	for _, m := range ms {
+		for _, v := range m {
+			if v != 0 {
+				return true
+			}
+		}
+	}
+	return false
 }
 
 func nz(m map[string]int64) map[string]int64 {
@@ -1056,6 +1119,9 @@ func (m *machine) checkLiveness(hist *[]string) {
 		}
 		if exists(filepath.Join(m.upl, week+".json.lock")) {
 			continue
+		}
+		if exists(filepath.Join(m.upl, week+".json")) {
+			continue // recorded as uploaded: keeping the local copy as well is not a failure to deliver
 		}
 		m.fail("never-delivered", "no crash happened and the server now answers 200, but after three more runs the report for week %s is still waiting in local/", week)
 		return
